@@ -216,7 +216,14 @@ _SAFE_BINOPS = {
     ast.BitXor: lambda a, b: a ^ b,
     ast.LShift: lambda a, b: a << b,
     ast.RShift: lambda a, b: a >> b,
+    ast.Pow: lambda a, b: _safe_pow(a, b),
 }
+
+
+def _safe_pow(a, b):
+    if isinstance(a, int) and isinstance(b, int) and 0 <= b <= 256 and abs(a) <= 1 << 16:
+        return a ** b
+    raise NotConst("pow out of range")
 
 
 def const_eval(node: ast.AST, env: Optional[Callable[[str], Any]] = None) -> Any:
